@@ -1,1 +1,118 @@
 // Kani contract harnesses for /repo/arrow-array/src/array/fixed_size_binary_array.rs (child module: sees private items via super::)
+use super::*;
+#[path = "/verif/kani/support/spec.rs"]
+mod spec;
+use spec::*;
+use arrow_buffer::BooleanBuffer;
+
+// Contract (C09, both directions; C01 read-back): FixedSizeBinaryArray::try_new(SIZE, values, nulls) for
+// the element width SIZE of the instance (one harness per width: the constructor divides by it), a
+// values buffer that is a window of symbolic length vlen <= 7 of a 7-byte allocation and an optional
+// validity bitmap of symbolic length nlen <= 8 at bit offset 5:
+//   SIZE < 0                       => Err
+//   SIZE == 0                      => Ok <=> vlen == 0;                  len = nlen (0 without bitmap)
+//   SIZE > 0                       => Ok <=> no bitmap \/ nlen == vlen div SIZE;   len = vlen div SIZE
+// and on Ok (Arrow format, fixed-size binary layout): value_length() == SIZE, len*SIZE <= vlen (every
+// value lies inside the buffer), validity length == len, value(i) == bytes[i*SIZE..(i+1)*SIZE],
+// is_null(i) <=> validity bit i clear.
+macro_rules! fsb_try_new {
+    ($name:ident, $size:expr) => {
+        #[kani::proof]
+        #[kani::unwind(10)]
+        #[kani::stub(alloc::fmt::format, stub_format)]
+        fn $name() {
+            const SIZE: i32 = $size;
+            let bytes: [u8; 7] = kani::any();
+            let vlen: usize = kani::any();
+            kani::assume(vlen <= 7);
+            let bm: [u8; 2] = kani::any();
+            let with_nulls: bool = kani::any();
+            let boff: usize = 5;
+            let nlen: usize = kani::any();
+            kani::assume(nlen <= 8);
+            let values = Buffer::from_slice_ref(&bytes).slice_with_length(0, vlen);
+            let nulls = if with_nulls {
+                Some(NullBuffer::new(BooleanBuffer::new(Buffer::from_slice_ref(&bm), boff, nlen)))
+            } else {
+                None
+            };
+            let r = FixedSizeBinaryArray::try_new(SIZE, values, nulls);
+            let div: usize = if SIZE > 0 { SIZE as usize } else { 1 };     // divisor for the spec side (never 0)
+            if SIZE < 0 {
+                assert!(r.is_err());
+            } else if SIZE == 0 {
+                assert!(r.is_ok() == (vlen == 0));
+            } else {
+                assert!(r.is_ok() == (!with_nulls || nlen == vlen / div));
+            }
+            if let Ok(a) = &r {
+                let sz = SIZE as usize;
+                let len = if sz == 0 { if with_nulls { nlen } else { 0 } } else { vlen / div };
+                assert!(a.len() == len);
+                assert!(a.value_length() == SIZE);
+                assert!(len * sz <= vlen);
+                assert!(a.nulls().is_some() == with_nulls);
+                if let Some(n) = a.nulls() { assert!(n.len() == len); }
+                let i: usize = kani::any();
+                if i < len {
+                    let v = a.value(i);
+                    assert!(v.len() == sz);
+                    let j: usize = kani::any();
+                    if j < sz { assert!(v[j] == bytes[i * sz + j]); }
+                    assert!(a.is_null(i) == (with_nulls && !bit(&bm, boff + i)));
+                }
+            }
+            kani::cover!(SIZE < 0 || (r.is_ok() && with_nulls));
+            kani::cover!(SIZE < 0 || (r.is_ok() && !with_nulls && (SIZE == 0 || vlen >= 2 * SIZE as usize)));
+            kani::cover!(r.is_err());
+            std::mem::forget(r);
+        }
+    };
+}
+// @unit name=fsb_try_new_neg props=C09 kind=bounded bound=value_length=-1_values<=7_bytes_validity<=8_bits fns=FixedSizeBinaryArray::try_new,FixedSizeBinaryArray::try_new_with_len
+fsb_try_new!(fsb_try_new_neg, -1);
+// @unit name=fsb_try_new_w0 props=C09,C01 kind=bounded bound=value_length=0_values<=7_bytes_validity<=8_bits fns=FixedSizeBinaryArray::try_new,FixedSizeBinaryArray::try_new_with_len,FixedSizeBinaryArray::value
+fsb_try_new!(fsb_try_new_w0, 0);
+// @unit name=fsb_try_new_w1 props=C09,C01 kind=bounded bound=value_length=1_values<=7_bytes_validity<=8_bits fns=FixedSizeBinaryArray::try_new,FixedSizeBinaryArray::try_new_with_len,FixedSizeBinaryArray::value tier=thorough note=not_confirmed_at_checkpoint
+fsb_try_new!(fsb_try_new_w1, 1);
+// @unit name=fsb_try_new_w2 props=C09,C01 kind=bounded bound=value_length=2_values<=7_bytes_validity<=8_bits fns=FixedSizeBinaryArray::try_new,FixedSizeBinaryArray::try_new_with_len,FixedSizeBinaryArray::value
+fsb_try_new!(fsb_try_new_w2, 2);
+// @unit name=fsb_try_new_w3 props=C09,C01 kind=bounded bound=value_length=3_values<=7_bytes_validity<=8_bits fns=FixedSizeBinaryArray::try_new,FixedSizeBinaryArray::try_new_with_len,FixedSizeBinaryArray::value tier=thorough note=not_confirmed_at_checkpoint
+fsb_try_new!(fsb_try_new_w3, 3);
+
+// Contract (C01, C02): slice(OFF, LEN) of a 3-row FixedSizeBinary(2) array denotes rows [OFF, OFF+LEN)
+// of the model (value bytes, nulls, exact null count); a window that exceeds the array is rejected by a
+// checked panic (may-reject), never read.
+// @unit name=fsb_slice_w2 props=C01,C02 kind=bounded bound=rows=3_width=2_all_windows mayreject=1 fns=FixedSizeBinaryArray::slice,FixedSizeBinaryArray::value tier=thorough note=not_confirmed_at_checkpoint
+#[kani::proof]
+#[kani::unwind(10)]
+#[kani::stub(alloc::fmt::format, stub_format)]
+fn fsb_slice_w2() {
+    let bytes: [u8; 6] = kani::any();
+    let bm: [u8; 1] = kani::any();
+    let with_nulls: bool = kani::any();
+    let nulls = if with_nulls { Some(NullBuffer::new(BooleanBuffer::new(Buffer::from_slice_ref(&bm), 2, 3))) } else { None };
+    let a = unsafe { FixedSizeBinaryArray::new_unchecked(2, Buffer::from_slice_ref(&bytes), nulls, 3) };
+    let (off, len): (usize, usize) = kani::any();
+    let s = a.slice(off, len);
+    // reached only if slice accepted the window
+    assert!(off <= 3 && len <= 3 - off);
+    assert!(s.len() == len && s.value_length() == 2);
+    let mut z = 0;
+    let mut i = 0;
+    while i < 3 {
+        if i < len {
+            let v = s.value(i);
+            assert!(v.len() == 2 && v[0] == bytes[2 * (off + i)] && v[1] == bytes[2 * (off + i) + 1]);
+            let null = with_nulls && !bit(&bm, 2 + off + i);
+            assert!(s.is_null(i) == null);
+            if null { z += 1 }
+        }
+        i += 1;
+    }
+    assert!(s.null_count() == z);
+    kani::cover!(off == 1 && len == 2 && z == 1);
+    kani::cover!(off == 3 && len == 0);
+    std::mem::forget(s);
+    std::mem::forget(a);
+}
